@@ -1,16 +1,31 @@
-"""M phase of C13 / C14: design-level model checking of specs/XsdDesign.tla (no repo code involved).
+"""M phase of C13 / C14: design-level model checking (no repo code involved).
 
-MC_XsdDesign(.cfg | _thorough.cfg): the content-model automaton of the generated schema design, explored for every
-scenario x value x single mutation of the bounded family, satisfies the design-level forms of the clauses.
-MC_XsdDesign_exclusion.cfg (thorough tier): negative control - the invariant "a descendant's tightening is enforced" must be
-VIOLATED, i.e. the exclusion in C14's sentence is real in this design (and TLC is able to see a wrong verdict)."""
+C13  MC_XsdTranslate(.cfg | _thorough.cfg): the pattern translation design at the level of the pattern text - the intended
+     rendering (parse first, write characters verbatim with XSD escaping) is well-formed XSD and, parsed back by the spec's
+     XSD pattern parser, accepts exactly the strings the tree accepts, for every tree of the family.
+     MC_XsdTranslate_textual.cfg (thorough): negative control - un-escaping \\xHH in the text before parsing is NOT faithful;
+     TLC must exhibit a counterexample.
+C14  MC_XsdDesign(.cfg | _thorough.cfg): the content-model automaton of the generated schema design, explored for every
+     scenario x value x single mutation of the bounded family, satisfies the design-level forms of the clauses
+     (valid accepted, MustReject rejected, every mutation rejected, deterministic progress).  Thorough C13 runs it too.
+     MC_XsdDesign_exclusion.cfg (thorough): negative control - "a descendant's tightening is enforced" must be VIOLATED,
+     i.e. the exclusion in C14's sentence is real in this design."""
 from harness import core
 
 
-def model_check(ck: core.Check) -> None:
+def _negative_control(ck: core.Check, module: str, cfg: str, invariant: str, what: str) -> None:
+    res = ck.tlc(module, cfg, what="M: negative control (%s)" % what, workers=4, timeout=900)
+    if not any(v["invariant"] == invariant for v in res.violations):
+        raise core.MachineryFailure("negative control %s/%s did not fire" % (module, cfg))
+
+
+def model_check(ck: core.Check, pid: str) -> None:
     suffix = "" if ck.quick else "_thorough"
-    ck.model_check("MC_XsdDesign", "MC_XsdDesign%s.cfg" % suffix, "schema design (sequence content model + facets of the own class) satisfies the clauses", workers=8, timeout=1500)
-    if not ck.quick:
-        res = ck.tlc("MC_XsdDesign", "MC_XsdDesign_exclusion.cfg", what="M: negative control (descendant tightening is not enforced by the design)", workers=4, timeout=600)
-        if not any(v["invariant"] == "Design_ExclusionIsReal" for v in res.violations):
-            raise core.MachineryFailure("negative control of XsdDesign did not fire")
+    if pid == "C13":
+        ck.model_check("MC_XsdTranslate", "MC_XsdTranslate%s.cfg" % suffix, "intended pattern translation is well-formed XSD and language-preserving on the tree family", workers=8, timeout=1500)
+        if not ck.quick:
+            _negative_control(ck, "MC_XsdTranslate", "MC_XsdTranslate_textual.cfg", "TextualIsFaithful", "textual \\xHH un-escaping before parsing changes the language")
+    if pid == "C14" or not ck.quick:
+        ck.model_check("MC_XsdDesign", "MC_XsdDesign%s.cfg" % suffix, "schema design (sequence content model + facets of the own class) satisfies the clauses", workers=8, timeout=1500)
+    if pid == "C14" and not ck.quick:
+        _negative_control(ck, "MC_XsdDesign", "MC_XsdDesign_exclusion.cfg", "Design_ExclusionIsReal", "descendant tightening is not enforced by the design")
